@@ -175,13 +175,57 @@ def p_nested_build(sh, tag):
   return dict(inner=r.bound['x'], ids=seq_ids(cfg))
 
 
+class _PriorError(Exception):
+  pass
+
+
+def _prior_fail(z=0):
+  raise _PriorError('prior')
+
+
+def prior_history():
+  """What the process did before the threads start: lookups and failures for
+  *other* callables / exception classes, so that any "most recent" or
+  wrongly keyed cache holds foreign data."""
+  fdl.Config(N.only_x, x=1)
+  try:
+    fdl.build(fdl.Config(_prior_fail))
+  except _PriorError:
+    pass
+  fdl.Config(N.node_pos, 1, 2, 3)
+
+
+def p_suspend_single(sh, tag):
+  """Only the tracking flag: no configuration work, few scheduling points."""
+  seen = []
+  with history.suspend_tracking():
+    sched.point('inside-single-block')
+    seen.append(history.tracking_enabled())
+  seen.append(history.tracking_enabled())
+  return dict(flags=seen, ids=[])
+
+
+def p_suspend_nested(sh, tag):
+  seen = []
+  with history.suspend_tracking():
+    with history.suspend_tracking():
+      sched.point('inside-inner-block')
+      seen.append(history.tracking_enabled())
+    sched.point('inside-outer-block')
+    seen.append(history.tracking_enabled())
+  seen.append(history.tracking_enabled())
+  return dict(flags=seen, ids=[])
+
+
 PROGRAMS = {
+    'suspend_single': p_suspend_single, 'suspend_nested': p_suspend_nested,
     'build_slow': p_build_slow, 'edits': p_edits,
     'nested_suspend': p_nested_suspend, 'deepcopy': p_deepcopy,
     'dump_json': p_dump_json, 'fresh_callable': p_fresh_callable,
     'failing_build': p_failing_build, 'eq': p_eq,
     'nested_build': p_nested_build,
 }
+SMALL = ['suspend_single', 'suspend_nested']
 SHORT = ['build_slow', 'edits', 'nested_suspend', 'fresh_callable',
          'failing_build', 'nested_build']
 
@@ -202,8 +246,12 @@ def units(tier, seed):
   b = bounds(tier)
   names = list(PROGRAMS)
   cap = b['occurrence_cap']
+  names = [n for n in names if n not in SMALL]
   out = [('combo', list(c), b['pair_bound'], cap)
          for c in itertools.combinations_with_replacement(names, 2)]
+  # small programs: two preemptions, every dynamic occurrence, also in quick
+  out += [('combo', list(c), 2, None)
+          for c in itertools.combinations_with_replacement(SMALL, 2)]
   if b['deep_bound']:
     out += [('combo', list(c), b['deep_bound'], 1)
             for c in itertools.combinations_with_replacement(SHORT, 2)]
@@ -218,6 +266,7 @@ def solo(name):
   """The observation of a program running alone from a fresh state."""
   sh = Shared()
   vfx.reset()
+  prior_history()
   obs = PROGRAMS[name](sh, 'T')
   obs = dict(obs)
   obs.pop('ids')
@@ -234,6 +283,7 @@ def run_combo(names, bound, res, only_schedule=None, occurrence_cap=None):
   def make_bodies():
     sh = Shared()
     vfx.reset()
+    prior_history()
     return [(lambda n=n: PROGRAMS[n](sh, 'T')) for n in names]
 
   def judge(ex):
